@@ -11,6 +11,13 @@ T2       real `gapic.utils.lines.sort_lines`, the generator's own Jinja `|sort(a
 T3       the ORDER of definitions in the emitted files (resource path helpers, retryable exception
          lists, AUTH_SCOPES, sub-package files in CodeGeneratorResponse.file, snippet index) of every
          sub-process run vs the model's set of possible outcomes.
+         round 2: the insertion-ordered dicts the templates iterate UNSORTED — `API.mixin_api_methods` / `mixin_api_signatures` /
+         `mixin_http_options` / `http_options` / `all_method_settings` on the real API object (and on variants of its service yaml:
+         rules / apis / settings shuffled, selectors repeated) vs the Lean `OMap` model (T2); the order of the wrapped mixin
+         methods in transports/base.py, of the `_Base<Mixin>` classes in rest_base.py, of the `operations_client` http_options keys
+         in rest.py (T3, every process); `Generator.get_response`'s OrderedDict accumulation: the tree of `_render_template` /
+         `_get_file` results of an instrumented in-process run vs `responseFiles`, and the resulting order vs every process's
+         CodeGeneratorResponse.file (T3); Python `dict` / Jinja `dictsort` vs `OMap` / `dictsort` (T2).
 probes   (informational, different requests) proto_file in another topological order; parameter string permuted.
 """
 from __future__ import annotations
@@ -123,7 +130,7 @@ def gen_spec(r: apigen.Rng, idx: int, clean: bool, rich: bool = False, extop=Non
                 meth["req_fields"].append({"name": "parent", "kind": "string", "ref": r.pick(all_types), "child": r.maybe(0.3)})
             svc["methods"].append(meth)
         services.append(svc)
-    opts = {"transport": r.pick(["grpc", "grpc+rest", "rest", "grpc+rest"]), "snippets": r.maybe(0.35),
+    opts = {"transport": r.pick(["grpc", "grpc+rest", "rest", "grpc+rest"]), "snippets": r.maybe(0.5),
             "metadata": r.maybe(0.6), "numeric_enums": r.maybe(0.3), "retry": r.maybe(0.8), "ads": r.maybe(0.12)}
     spec = {"idx": idx, "clean": clean, "nfiles": nfiles, "messages": msgs, "file_resources": file_res,
             "services": services, "opts": opts}
@@ -134,6 +141,8 @@ def gen_spec(r: apigen.Rng, idx: int, clean: bool, rich: bool = False, extop=Non
         opts["transport"] = "rest"; opts["ads"] = False        # extended operations exist for REST only
     if spec["extras"].get("mixins") or spec["extras"].get("subpkgs"):
         opts["ads"] = False
+    if spec["extras"].get("sub_service"):
+        opts["snippets"] = False       # known finding of C14 (`generation-crash:KeyError:service-in-subpackage`): no response to compare
     return spec
 
 
@@ -144,7 +153,8 @@ SUBPKGS = ["alpha", "beta", "gamma", "delta", "omega"]
 OPS_API, LOC_API, IAM_API = "google.longrunning.Operations", "google.cloud.location.Locations", "google.iam.v1.IAMPolicy"
 MIXIN_RULES = {
     OPS_API: [("GetOperation", "get", "/v1/{name=operations/*}", None), ("ListOperations", "get", "/v1/{name=operations}", None),
-              ("DeleteOperation", "delete", "/v1/{name=operations/*}", None), ("CancelOperation", "post", "/v1/{name=operations/*}:cancel", "*")],
+              ("DeleteOperation", "delete", "/v1/{name=operations/*}", None), ("CancelOperation", "post", "/v1/{name=operations/*}:cancel", "*"),
+              ("WaitOperation", "post", "/v1/{name=operations/*}:wait", "*")],
     LOC_API: [("GetLocation", "get", "/v1/{name=projects/*/locations/*}", None), ("ListLocations", "get", "/v1/{name=projects/*}/locations", None)],
     IAM_API: [("GetIamPolicy", "post", "/v1/{resource=shelves/*}:getIamPolicy", "*"), ("SetIamPolicy", "post", "/v1/{resource=shelves/*}:setIamPolicy", "*"),
               ("TestIamPermissions", "post", "/v1/{resource=shelves/*}:testIamPermissions", "*")],
@@ -168,7 +178,90 @@ def gen_extras(r, spec, rich):
     ex["op_field"] = on(0.4)
     ex["extop"] = (rich and r.maybe(0.5)) or r.maybe(0.12)
     ex["host_port"] = r.maybe(0.2)
+    # ---- round 2 (drawn from a separate stream so that the shapes above stay what they were)
+    r2 = apigen.Rng(f"c10-extras2:{spec['idx']}:{r.random()}")
+    ex["nested_subpkgs"] = bool(ex["subpkgs"]) and (rich or r2.maybe(0.4))
+    ex["sub_service"] = bool(ex["subpkgs"]) and r2.maybe(0.45 if rich else 0.25)
+    ex["iam_override"] = IAM_API in ex["mixins"] and r2.maybe(0.2)
+    ex["yaml"] = gen_yaml(r2, spec, ex, rich)
     return ex
+
+
+ALT_URI = {"get": "/v2/{name=projects/*/operations/*}", "delete": "/v2/{name=projects/*/operations/*}",
+           "post": "/v2/{name=projects/*/things/*}:act"}
+
+
+def gen_yaml(r, spec, ex, rich):
+    """the API's service yaml (None = the API has none).  Lists whose ORDER the generator must follow (and nothing else):
+    `apis` (mixins, shuffled, next to the API's own services), `http.rules` (mixin rules shuffled and interleaved, some
+    selectors repeated with another uri, additional_bindings, a pattern-less rule, rules of mixins that are not enabled, rules
+    for the API's own methods), `publishing.method_settings` (long_running for LRO methods, auto_populated_fields for unary
+    methods — the request gets the UUID4 fields —, shuffled), `publishing.library_settings` (selective generation of a
+    subset of the methods, rest_async_io)."""
+    apis = list(ex["mixins"])
+    if not apis and not (rich or r.maybe(0.5)):
+        return None
+    rules = []
+    rule_apis = list(apis) + [a for a in (OPS_API, LOC_API, IAM_API) if a not in apis and r.maybe(0.15)]
+    for a in rule_apis:
+        for (m, verb, uri, body) in MIXIN_RULES[a]:
+            if m == "WaitOperation" and not r.maybe(0.4):
+                continue
+            if not r.maybe(0.9):
+                continue
+            d = {"selector": f"{a}.{m}", verb: uri}
+            if body:
+                d["body"] = body
+            if r.maybe(0.3):
+                d["additional_bindings"] = [{verb: ALT_URI[verb].replace("name=", "resource=") if a == IAM_API else ALT_URI[verb],
+                                             **({"body": body} if body else {})} for _ in range(r.randint(1, 2))]
+            rules.append(d)
+            if r.maybe(0.2):                      # the selector once more, elsewhere in the list, with another uri
+                d2 = {"selector": d["selector"], verb: (ALT_URI[verb].replace("name=", "resource=") if a == IAM_API else ALT_URI[verb])}
+                if body:
+                    d2["body"] = body
+                rules.append(d2)
+    own = [(svc["name"], me) for svc in spec["services"] for me in svc["methods"]]
+    for (sv, me) in r.sample(own, min(len(own), r.randint(0, 2))):
+        rules.append({"selector": f"{PKG}.{sv}.{me['name']}", "get": "/v9/{name=c%ds/*}" % me["target"]})
+    r.shuffle(rules)
+    settings = []
+    for (sv, me) in own:
+        if me["kind"] == "lro" and r.maybe(0.6):
+            settings.append({"selector": f"{PKG}.{sv}.{me['name']}",
+                             "long_running": {"initial_poll_delay": "5s", "poll_delay_multiplier": 1.5, "max_poll_delay": "60s", "total_poll_timeout": "600s"}})
+        elif me["kind"] in ("unary", "void", "paged") and r.maybe(0.5):
+            me["autopop"] = ["request_id"] + (["other_id"] if r.maybe(0.4) else [])
+            flds = list(me["autopop"])
+            r.shuffle(flds)
+            settings.append({"selector": f"{PKG}.{sv}.{me['name']}", "auto_populated_fields": flds})
+    r.shuffle(settings)
+    if ex.get("sub_service"):
+        # known finding of C18 (`rejected-valid:method-of-another-package-view-not-found`): with a service in a sub-package every
+        # method_settings entry of another package aborts generation — no response to compare, so none are generated here
+        settings = []
+    lib = {"version": PKG, "python_settings": {}}
+    if own and r.maybe(0.3) and not ex.get("sub_service"):     # (selective settings are validated per sub-package view too: C16's subject)
+        keep = r.sample(own, r.randint(1, max(1, len(own) - 1)))
+        internal = r.maybe(0.5)
+        lib["python_settings"]["common"] = {"selective_gapic_generation": {
+            "methods": [f"{PKG}.{sv}.{me['name']}" for (sv, me) in keep], "generate_omitted_as_internal": internal}}
+        if not internal:                   # an omitted method no longer exists for `enforce_valid_method_settings`
+            kept = {f"{PKG}.{sv}.{me['name']}" for (sv, me) in keep}
+            settings = [x for x in settings if x["selector"] in kept]
+    if r.maybe(0.3):
+        lib["python_settings"]["experimental_features"] = {"rest_async_io_enabled": True}
+    names = [{"name": a} for a in apis] + [{"name": f"{PKG}.{svc['name']}"} for svc in spec["services"] if r.maybe(0.5)]
+    r.shuffle(names)
+    y = {"type": "google.api.Service", "config_version": 3, "name": "lib.example.com", "apis": names, "http": {"rules": rules}}
+    pub = {}
+    if settings:
+        pub["method_settings"] = settings
+    if lib["python_settings"]:
+        pub["library_settings"] = [lib]
+    if pub:
+        y["publishing"] = pub
+    return y
 
 
 def build_files(spec):
@@ -248,9 +341,28 @@ def build_files(spec):
         info = sf.msg(f"{cap}Info"); info.field("label"); info.field("kind", "enum", type_name=ke); info.field("weight", "int32")
         more = sf.msg(f"{cap}Extra"); more.field("info", "message", type_name=info); more.field("tags", repeated=True)
         subfiles.append(sf)
+    if ex.get("nested_subpkgs"):                         # sub-packages of sub-packages: two below the first, one below the last
+        tops = ex["subpkgs"]
+        for (top, leafs) in ([(tops[0], ["zeta", "deep"])] + ([(tops[-1], ["deep"])] if len(tops) > 1 else [])):
+            for leaf in leafs:
+                nf = apigen.File(f"acme/lib/v1/{top}/{leaf}/{top}_{leaf}.proto", f"{PKG}.{top}.{leaf}", deps=[])
+                cap = top.capitalize() + leaf.capitalize()
+                ne_ = nf.enum(f"{cap}Kind", [f"{cap.upper()}_KIND_UNSPECIFIED", f"{cap.upper()}_ONE"])
+                nm_ = nf.msg(f"{cap}Note"); nm_.field("text"); nm_.field("kind", "enum", type_name=ne_)
+                subfiles.append(nf)
+    if ex.get("sub_service"):                            # a service that lives in a sub-package of the API package
+        sp = ex["subpkgs"][-1]
+        sf = apigen.File(f"acme/lib/v1/{sp}/{sp}_service.proto", f"{PKG}.{sp}")
+        sf.dep(f"acme/lib/v1/{sp}/{sp}_types.proto")
+        rq = sf.msg(f"Get{sp.capitalize()}InfoRequest"); rq.field("name"); rq.field("label")
+        so = sf.service(f"{sp.capitalize()}Keeper", scopes=("https://example.com/auth/x", "https://example.com/auth/Y"))
+        so.method(f"Get{sp.capitalize()}Info", rq, f".{PKG}.{sp}.{sp.capitalize()}Info", http=("get", "/v1/{name=" + sp + "s/*}"), sigs=["name"])
+        so.method(f"Check{sp.capitalize()}Info", rq, f".{PKG}.{sp}.{sp.capitalize()}Extra", http=("post", "/v1/{name=" + sp + "s/*}:check"), body="*")
+        subfiles.append(sf)
     f = files[last]
     for sf in subfiles:
-        f.dep(sf.name)
+        if not sf.name.endswith("_service.proto"):
+            f.dep(sf.name)
     if subfiles:
         for k in order:                                  # messages of the last file reference the sub-package types
             if home[k] == last:
@@ -278,6 +390,8 @@ def build_files(spec):
             rq = f.msg(f"{svc['name']}{me['name']}Request")
             for rf in me["req_fields"]:
                 add_field(rq, rf, last)
+            for ap in me.get("autopop") or []:           # AIP-4235 fields named by the yaml's method_settings
+                rq.field(ap, uuid4=True)
             http_uri = "/v1/{name=" + f"c{tgt}s/*" + "}"
             body = "*" if me["http"] in ("post", "patch") else None
             sigs = ["name"] if me["sig"] else []
@@ -306,6 +420,11 @@ def build_files(spec):
                     "name": [{"service": f"{PKG}.{svc['name']}", "method": me["name"]}], "timeout": "60s",
                     "retryPolicy": {"maxAttempts": 5, "initialBackoff": "0.1s", "maxBackoff": "60s",
                                     "backoffMultiplier": 1.3, "retryableStatusCodes": me["codes"]}})
+        if ex.get("iam_override") and svc is spec["services"][0]:
+            # a method of the API itself named like an IAM mixin method: `_has_iam_overrides` drops the whole IAM mixin
+            rq = f.msg(f"{svc['name']}GetIamPolicyRequest"); rq.field("resource")
+            so.method("GetIamPolicy", rq, full(order[0]), http=("post", "/v1/{resource=c0s/*}:getIamPolicy"), body="*")
+    # the sub-package service file goes AFTER the files it does not depend on, like protoc would list it
     return [shared] + subfiles + files, subfiles + files, retry_cfg
 
 
@@ -338,6 +457,8 @@ def add_extops(f):
 
 
 def service_yaml(spec):
+    if "yaml" in (spec.get("extras") or {}):             # round 2: the yaml is part of the spec
+        return spec["extras"]["yaml"]
     apis = (spec.get("extras") or {}).get("mixins") or []
     if not apis:
         return None
@@ -370,7 +491,7 @@ def build_request(spec, workdir):
             json.dump(retry_cfg, fh)
         params.append(f"retry-config={p}")
     y = service_yaml(spec)
-    if y is not None and not o.get("ads"):
+    if y is not None and (not o.get("ads") or "yaml" in (spec.get("extras") or {})):
         import yaml
         p = os.path.join(workdir, f"service_{spec['idx']}.yaml")
         with open(p, "w") as fh:
@@ -552,12 +673,16 @@ def ask(ctx, ops):
 
 # ----------------------------------------------------------------------------------------- inventory (T1-style tie)
 THEOREMS_FOR_CLASS = {
-    "S1": ["sort_lines_perm_invariant", "sorted_perm_invariant", "sort_total_order_perm_invariant", "subpackages_order_free"],
+    "S1": ["sort_lines_perm_invariant", "sorted_perm_invariant", "sort_total_order_perm_invariant", "subpackages_order_free",
+           "subpackage_names_own_level"],
     "S2": ["sort_by_key_perm_invariant", "sort_by_key_needs_injective", "retry_order_free", "query_params_order_free",
            "resource_helpers_order_free", "resource_helpers_f4_regression"],
     "S3": ["s3_mem_perm_invariant", "s3_length_perm_invariant", "disambiguate_perm_invariant", "module_collides_perm_invariant"],
     "S4": ["s4_chain", "import_block_order_free", "colliding_module_perm_invariant"],
-    "S5": ["pipeline_order_free", "oauth_scopes_keep_declaration_order"],
+    "S5": ["pipeline_order_free", "oauth_scopes_keep_declaration_order", "dict_key_order", "dict_update_key_order", "dict_last_writer_wins",
+           "methods_from_service_yaml_order", "methods_from_service_table_order_free", "mixin_api_methods_yaml_order",
+           "mixin_api_methods_order_function_of_yaml_order", "mixin_dicts_share_key_order", "http_options_yaml_order",
+           "all_method_settings_is_yaml_list", "response_file_order", "chain_map_key_order", "dictsort_insertion_order_free"],
 }
 
 
@@ -822,6 +947,10 @@ def t2_schema(ctx, r, req, spec):
         for s in (names[:3] + ["zzz_unused", "_" + names[0] if names else "x"]):
             ops.append({"op": "c10.disambiguate", "names": names, "s": s})
             checks.append(("disambiguate", proto.disambiguate(s), None, {"names": names, "s": s}))
+    # ChainMaps over the protos' dicts (`for service in api.services.values()`): iteration order on the real objects
+    for what, cm in (("services", api.services), ("messages", api.messages), ("enums", api.enums)):
+        ops.append({"op": "c10.chain_map", "maps": [list(mp) for mp in cm.maps]})
+        checks.append(("chain_map", list(cm), None, {"what": what}))
     out = ask(ctx, ops)
     for (what, real, extra, payload), mo in zip(checks, out):
         ctx.traces += 1
@@ -833,9 +962,316 @@ def t2_schema(ctx, r, req, spec):
             got = [a or b for a, b in zip(mo.get("r", []), extra)]
             if got != real:
                 ctx.disagree("T2:c10.colliding", f"model {got} vs impl {real}", payload)
+        elif what == "chain_map":
+            if mo.get("keys") != real:
+                ctx.disagree("T2:c10.chain_map", f"api.{payload['what']}: model {str(mo.get('keys'))[:200]} vs impl {str(real)[:200]}", payload)
         elif mo.get("r") != real:
             ctx.disagree(f"T2:c10.{what}", f"model {mo.get('r')} vs impl {real}", payload)
     return api, per_service
+
+
+# ----------------------------------------------------------------------------------------- round 2: dicts
+def t2_dicts(ctx, r):
+    """Python's dict / Jinja's dictsort vs the Lean OMap, function level"""
+    env = _env()
+    tpl_ds = env.from_string('{% for k, v in d|dictsort %}{{ v }},{% endfor %}')
+    keypool = ["a", "b", "B", "GetOperation", "ListOperations", "getoperation", "x.y.Z", "x.y.z", "", "k1", "k2", "K1", "é"]
+    ops, meta = [], []
+    for _ in range(ctx.n(80, 800)):
+        pairs = [[r.pick(keypool), f"v{j}"] for j in range(r.randint(0, 7))]
+        more = [[r.pick(keypool), f"w{j}"] for j in range(r.randint(0, 4))]
+        probe = r.sample(keypool, 3)
+        ops.append({"op": "c10.omap", "pairs": pairs, "more": more, "probe": probe}); meta.append((pairs, more, probe))
+    for (pairs, more, probe), mo in zip(meta, ask(ctx, ops)):
+        d = {k: v for k, v in pairs}
+        d = {**d, **{k: v for k, v in more}} if len(pairs) % 2 else (d.update(more) or d)
+        ctx.case(distinct_key=["omap", pairs, more], nontrivial=len(pairs) + len(more) > 1); ctx.traces += 1
+        if mo.get("keys") != list(d) or mo.get("items") != [[k, v] for k, v in d.items()] or mo.get("get") != [d.get(k) for k in probe]:
+            ctx.disagree("T2:c10.omap", f"model {mo} vs dict {list(d.items())}", {"pairs": pairs, "more": more})
+    ops, meta = [], []
+    for _ in range(ctx.n(40, 400)):
+        ks = r.sample(keypool, r.randint(0, 6))
+        ops.append({"op": "c10.dictsort", "items": [[k, str(i)] for i, k in enumerate(ks)]}); meta.append(ks)
+    for ks, mo in zip(meta, ask(ctx, ops)):
+        real = [x for x in tpl_ds.render(d={k: str(i) for i, k in enumerate(ks)}).split(",") if x]
+        ctx.case(distinct_key=["dictsort", ks], nontrivial=len(ks) > 1); ctx.traces += 1
+        if mo.get("order") != real:
+            ctx.disagree("T2:c10.dictsort", f"model {mo.get('order')} vs jinja {real}", {"keys": ks})
+
+
+_TABLES = {}
+
+
+def mixin_tables():
+    """the (fqn, name) tables `_get_methods_from_service` builds from the three mixin modules' descriptors"""
+    if not _TABLES:
+        from google.cloud.location import locations_pb2
+        from google.iam.v1 import iam_policy_pb2
+        from google.longrunning import operations_pb2
+        for key, mod in (("loc", locations_pb2), ("iam", iam_policy_pb2), ("ops", operations_pb2)):
+            t = []
+            for sname in mod.DESCRIPTOR.services_by_name:
+                svc = mod.DESCRIPTOR.services_by_name[sname]
+                for m in svc.methods:
+                    t.append([f"{mod.DESCRIPTOR.package}.{svc.name}.{m.name}", m.name])
+            _TABLES[key] = t
+    return _TABLES
+
+
+def binding_json(rule):
+    pat = rule.WhichOneof("pattern")
+    uri = "" if pat is None else (rule.custom.path if pat == "custom" else getattr(rule, pat))
+    return {"verb": pat or "", "uri": uri, "body": rule.body}
+
+
+def rules_json(cfg):
+    """`service_yaml_config.http.rules` as the generator sees them (after ParseDict), for the model"""
+    return [{"selector": ru.selector, **binding_json(ru), "additional": [binding_json(b) for b in ru.additional_bindings]}
+            for ru in cfg.http.rules]
+
+
+def dict_observables(api):
+    """the real dicts, as ordered lists"""
+    from google.api import annotations_pb2
+    out = {"has": [api.has_location_mixin, api.has_iam_mixin, api.has_operations_mixin], "iam_overrides": api._has_iam_overrides}
+    mm = api.mixin_api_methods
+    out["methods"] = [[k, binding_json(v.options.Extensions[annotations_pb2.http])["uri"]] for k, v in mm.items()]
+    out["signatures"] = [k for k, v in api.mixin_api_signatures.items()]
+    out["sig_names"] = [v.name for v in api.mixin_api_signatures.values()]
+    out["http_options"] = [[k, [[x.method, x.uri, x.body or ""] for x in v]] for k, v in api.mixin_http_options.items()]
+    out["api_http_options"] = [[k, [[x.method, x.uri, x.body or ""] for x in v]] for k, v in api.http_options.items()]
+    return out
+
+
+def settings_observables(api):
+    from gapic.schema.api import MethodSettingsError
+    cfg = api.service_yaml_config
+    entries = []
+    for ms in cfg.publishing.method_settings:
+        try:
+            api.enforce_valid_method_settings([ms]); ok = True
+        except MethodSettingsError:
+            ok = False
+        # (the copy made by all_method_settings always HAS the long_running field — it is passed to the constructor —, so
+        # presence is compared by content)
+        entries.append({"selector": ms.selector, "long_running": ms.long_running.ByteSize() > 0, "fields": list(ms.auto_populated_fields), "valid": ok})
+    try:
+        real = {"raises": False, "items": [[k, v.selector, v.long_running.ByteSize() > 0, list(v.auto_populated_fields)] for k, v in api.all_method_settings.items()]}
+    except MethodSettingsError:
+        real = {"raises": True}
+    return entries, real
+
+
+def yaml_variants(r, api, n):
+    """the same API under `n` re-ordered / perturbed service yamls (new API objects; the schema is shared):
+    rules, apis and method settings shuffled, a selector repeated, a rule's pattern cleared, a setting duplicated"""
+    import dataclasses
+    from google.api import service_pb2
+
+    def copies(xs):
+        out_ = []
+        for x in xs:
+            y = type(x)(); y.CopyFrom(x); out_.append(y)
+        return out_
+    out = [("as-generated", api)]
+    for k in range(n):
+        cfg = service_pb2.Service(); cfg.CopyFrom(api.service_yaml_config)
+        rules = copies(cfg.http.rules); r.shuffle(rules)
+        how = r.pick(["shuffle", "shuffle", "repeat-selector", "clear-pattern", "duplicate-setting", "drop-api", "custom"])
+        if rules and how == "repeat-selector":
+            x = type(rules[0])(); x.CopyFrom(r.pick(rules)); x.get = "/v3/{name=again/*}"; rules.insert(r.randint(0, len(rules)), x)
+        if rules and how == "clear-pattern":
+            x = r.pick(rules); x.ClearField(x.WhichOneof("pattern")) if x.WhichOneof("pattern") else None
+            if not x.additional_bindings:                       # keep the emitted library sane: [0] of an empty list would raise
+                x.additional_bindings.add(get="/v4/{name=fallback/*}")
+        if rules and how == "custom":
+            x = r.pick(rules).additional_bindings.add(); x.custom.kind = "HEAD"; x.custom.path = "/v5/{name=heads/*}"
+        del cfg.http.rules[:]; cfg.http.rules.extend(rules)
+        apis = copies(cfg.apis); r.shuffle(apis)
+        if apis and how == "drop-api":
+            apis.pop()
+        del cfg.apis[:]; cfg.apis.extend(apis)
+        ms = copies(cfg.publishing.method_settings); r.shuffle(ms)
+        if ms and how == "duplicate-setting":
+            ms.insert(r.randint(0, len(ms)), r.pick(ms))
+        del cfg.publishing.method_settings[:]; cfg.publishing.method_settings.extend(ms)
+        out.append((how, dataclasses.replace(api, service_yaml_config=cfg)))
+    return out
+
+
+def t2_yaml_dicts(ctx, r, api, payload):
+    """T2 on the real API object: mixin / http-option / method-settings dicts vs the model; the model gets the descriptor
+    tables in a shuffled order (it must not matter) and the yaml lists exactly as the generator parsed them"""
+    tables = mixin_tables()
+    sm = [list(svc.methods) for svc in api.services.values()]
+    ops, meta = [], []
+    for how, a in yaml_variants(r, api, ctx.n(3, 6)):
+        cfg = a.service_yaml_config
+        t = {k: r.sample(v, len(v)) for k, v in tables.items()}
+        ops.append({"op": "c10.mixins", "tables": t, "apis": [x.name for x in cfg.apis], "service_methods": sm, "rules": rules_json(cfg)})
+        meta.append(("mixins", how, a, None))
+        entries, real = settings_observables(a)
+        ops.append({"op": "c10.method_settings", "settings": entries})
+        meta.append(("settings", how, a, real))
+    for (what, how, a, real), mo in zip(meta, ask(ctx, ops)):
+        ctx.traces += 1
+        ctx.count("t2_yaml", f"{what}:{how}")
+        if what == "mixins":
+            real = dict_observables(a)
+            ctx.count("mixin_methods", min(len(real["methods"]), 9))
+            ctx.case(distinct_key=["mixins", json.dumps(rules_json(a.service_yaml_config)), [x.name for x in a.service_yaml_config.apis]],
+                     nontrivial=len(real["methods"]) > 1)
+            for k in ("has", "iam_overrides", "methods", "signatures", "http_options", "api_http_options"):
+                if mo.get(k) != real[k]:
+                    ctx.disagree(f"T2:c10.mixins.{k}", f"[{how}] model {str(mo.get(k))[:300]} vs impl {str(real[k])[:300]}",
+                                 {**payload, "variant": how, "rules": rules_json(a.service_yaml_config)})
+            if mo.get("spec") != [k for k, _ in real["methods"]]:
+                ctx.disagree("T2:c10.mixins.closed-form", f"[{how}] closed form {mo.get('spec')} vs impl {[k for k, _ in real['methods']]}", payload)
+            if real["sig_names"] != real["signatures"]:
+                ctx.disagree("T2:c10.mixins.signature-table", f"MIXINS_MAP[name].name != name: {real['sig_names']} vs {real['signatures']}", payload)
+        else:
+            ctx.case(distinct_key=["settings", json.dumps(real, sort_keys=True), how], nontrivial=not real["raises"] and len(real.get("items", [])) > 1)
+            if mo != real:
+                ctx.disagree("T2:c10.method_settings", f"[{how}] model {str(mo)[:300]} vs impl {str(real)[:300]}", {**payload, "variant": how})
+
+
+WRAP_RE = re.compile(r"^            self\.(\w+): gapic_v1\.method(?:_async)?\.wrap_method\(", re.M)
+BASECLS_RE = re.compile(r"^    class _Base(\w+):", re.M)
+OPSOPT_RE = re.compile(r"^ +'(google\.longrunning\.Operations\.\w+)': \[", re.M)
+
+
+def observe_dicts(ctx, spec, sched, outs, ra, api, payload):
+    """T3 for the unsorted dict loops, on EVERY process's response: the order of the wrapped mixin methods
+    (transports/base.py: `for method_name in api.mixin_api_methods.keys()`), of the `_Base<Name>` classes
+    (rest_base.py: `for name, sig in api.mixin_api_signatures.items()`), of the operations client's http_options literal
+    (rest.py: `for selector, rules in api.http_options.items()`) == the model's key order."""
+    cfg = api.service_yaml_config
+    if not cfg.http.rules and not cfg.apis:
+        return
+    # the templates of a service are rendered with the VIEW of the API for the service's sub-package (API.subpackages):
+    # `_has_iam_overrides` looks at the view's services only, so the model is asked once per view
+    by_dir, subs = {}, []
+    for svc in api.services.values():
+        sub = tuple(svc.meta.address.subpackage)
+        by_dir[snake(svc.name)] = sub
+        if sub not in subs:
+            subs.append(sub)
+    views = {sub: view_of(api, sub) for sub in subs}
+    mos = ask(ctx, [{"op": "c10.mixins", "tables": mixin_tables(), "apis": [x.name for x in cfg.apis],
+                     "service_methods": [list(svc.methods) for svc in views[sub].services.values()], "rules": rules_json(cfg)} for sub in subs])
+    want_by = {}
+    for sub, mo in zip(subs, mos):
+        want = [k for k, _ in mo["methods"]]
+        want_by[sub] = (want, [snake(k) for k in want], [k for k, _ in mo["api_http_options"] if k.startswith("google.longrunning.Operations")])
+        ctx.count("t3_mixin_methods", min(len(want), 9))
+    for k, o in enumerate(outs):
+        resp = ra if k == 0 else plugin_pb2.CodeGeneratorResponse.FromString(o[1])
+        for f in resp.file:
+            n, c = f.name, f.content
+            if "/services/" not in n or "/transports/" not in n:
+                continue
+            sdir = n.split("/services/", 1)[1].split("/", 1)[0]
+            if sdir not in by_dir:
+                continue
+            want, want_snake, want_ops = want_by[by_dir[sdir]]
+            if n.endswith("/transports/base.py"):
+                got = [m for m in WRAP_RE.findall(c)]
+                tail = got[len(got) - len(want_snake):] if want_snake else []
+                ctx.traces += 1
+                if tail != want_snake:
+                    ctx.disagree("T3:c10.mixin_wrap_order", f"{n}: wrapped methods end with {got[-len(want_snake) - 1:]}, model order {want_snake}",
+                                 {**payload, "seed": sched[k][0]})
+            elif n.endswith("/transports/rest_base.py"):
+                got = [m for m in BASECLS_RE.findall(c) if m in want]
+                ctx.traces += 1
+                if got != want:
+                    ctx.disagree("T3:c10.mixin_rest_class_order", f"{n}: _Base<mixin> classes in order {got}, model {want}", {**payload, "seed": sched[k][0]})
+            elif n.endswith("/transports/rest.py") and "def operations_client" in c:
+                got = OPSOPT_RE.findall(c.split("def operations_client", 1)[1].split("\n    def ", 1)[0])
+                ctx.traces += 1
+                if got != want_ops:
+                    ctx.disagree("T3:c10.operations_http_options_order", f"{n}: http_options keys {got}, model {want_ops}", {**payload, "seed": sched[k][0]})
+
+
+def view_of(api, sub):
+    v = api
+    for sp in sub:
+        v = v.subpackages[sp]
+    return v
+
+
+def render_trace(req):
+    """one instrumented in-process generation: the tree of `_render_template` calls (children = the recursive calls for the
+    sub-packages, leaves = the `_get_file` results, in call order) and the names of the sample files"""
+    from gapic.generator import generator as G
+    stack, roots, info = [], [], {"sample": []}
+    o_rt, o_gf, o_gs = G.Generator._render_template, G.Generator._get_file, G.Generator._generate_samples_and_manifest
+
+    def rt(self, template_name, **kw):
+        node = {"template": template_name, "parts": []}
+        (stack[-1]["parts"] if stack else roots).append(node)
+        stack.append(node)
+        try:
+            out = o_rt(self, template_name, **kw)
+        finally:
+            stack.pop()
+        node["result"] = list(out.keys())
+        return out
+
+    def gf(self, template_name, **kw):
+        out = o_gf(self, template_name, **kw)
+        if stack:
+            stack[-1]["parts"].append({"leaf": list(out.keys())})
+        return out
+
+    def gs(self, *a, **kw):
+        out = o_gs(self, *a, **kw)
+        info["sample"] = list(out[0].keys())
+        return out
+    G.Generator._render_template, G.Generator._get_file, G.Generator._generate_samples_and_manifest = rt, gf, gs
+    try:
+        res = genrun.generate_inproc(req)
+    finally:
+        G.Generator._render_template, G.Generator._get_file, G.Generator._generate_samples_and_manifest = o_rt, o_gf, o_gs
+    return roots, info["sample"], [f.name for f in res.file]
+
+
+def t3_response_order(ctx, req, outs, ra, sched, payload):
+    """`get_response` / `_render_template` accumulate OrderedDicts with `.update`: every node of the instrumented call tree
+    == the model's `responseFiles` of its parts; the top level == the order of CodeGeneratorResponse.file of every process"""
+    try:
+        roots, sample, names = render_trace(req)
+    except Exception as e:
+        ctx.count("skipped", "render-trace:" + genrun.crash_signature(e))
+        return
+    ops, meta = [], []
+
+    def walk(node):
+        parts = [p["leaf"] if "leaf" in p else p["result"] for p in node["parts"]]
+        ops.append({"op": "c10.response_order", "sample": [], "templates": parts}); meta.append(("node:" + node["template"], node["result"]))
+        for p in node["parts"]:
+            if "leaf" not in p:
+                walk(p)
+    for n in roots:
+        walk(n)
+    ops.append({"op": "c10.response_order", "sample": sample, "templates": [n["result"] for n in roots]}); meta.append(("response", names))
+    top = None
+    for (what, real), mo in zip(meta, ask(ctx, ops)):
+        ctx.traces += 1
+        if mo.get("order") != real:
+            ctx.disagree("T3:c10.response_order", f"{what}: model order differs from the real OrderedDict: first difference "
+                         f"{next(((a, b) for a, b in itertools.zip_longest(mo.get('order') or [], real) if a != b), None)}", payload)
+        if what == "response":
+            top = mo.get("order")
+    ctx.count("response_files", min(len(names), 400) // 50 * 50)
+    ctx.count("render_tree_nodes", min(len(ops), 200) // 20 * 20)
+    for k, o in enumerate(outs):
+        resp = ra if k == 0 else plugin_pb2.CodeGeneratorResponse.FromString(o[1])
+        got = [f.name for f in resp.file]
+        ctx.traces += 1
+        if got != top:
+            ctx.disagree("T3:c10.response_order", f"process {k} (hash seed {sched[k][0]}): CodeGeneratorResponse.file order differs from the model at "
+                         f"{next(((a, b) for a, b in itertools.zip_longest(top or [], got) if a != b), None)}", {**payload, "seed": sched[k][0]})
 
 
 # ----------------------------------------------------------------------------------------- oracle + T3
@@ -870,10 +1306,17 @@ def run_apis(ctx, items, workdir, nseeds, nclock=None):
             # NOT part of the property (these are different requests): informational metamorphic probes
             probes = [("proto_file-order", topo_permuted(req, r)), ("parameter-order", params_permuted(req, r))]
             mine += [(q.SerializeToString(), sched[0][0], sched[0][1], sched[0][2]) for _, q in probes]
-        prepared.append((spec, label, sched, api, per_service, probes, len(jobs), len(mine)))
+        if api is not None and (api.service_yaml_config.http.rules or api.service_yaml_config.apis or api.service_yaml_config.publishing.method_settings):
+            try:
+                t2_yaml_dicts(ctx, r, api, {"spec": spec})
+                for sub in sorted({tuple(svc.meta.address.subpackage) for svc in api.services.values()} - {()}):
+                    t2_yaml_dicts(ctx, r, view_of(api, sub), {"spec": spec, "view": list(sub)})
+            except Exception as e:
+                ctx.disagree("T2:c10.mixins.crash", f"the real dict properties raised on a variant of the yaml: {genrun.crash_signature(e)}", {"spec": spec})
+        prepared.append((spec, label, sched, api, per_service, probes, len(jobs), len(mine), req))
         jobs += mine
     outs_all = run_many(jobs)
-    for (spec, label, sched, api, per_service, probes, start, n) in prepared:
+    for (spec, label, sched, api, per_service, probes, start, n, req) in prepared:
         outs = outs_all[start:start + n]
         for (what, q), o in zip(probes, outs[len(sched):]):
             same = o[0] == 0 and o[1] == outs[0][1]
@@ -883,10 +1326,10 @@ def run_apis(ctx, items, workdir, nseeds, nclock=None):
                 ctx.notes.setdefault("probe_differences", []).append(
                     {"probe": what, "api": label, "files": [f["name"] for f in summ["files"]][:6], "file_order": summ["file_order"],
                      "first": [f["first"] for f in summ["files"]][:2]})
-        observe(ctx, spec, sched, outs[:len(sched)], api, per_service, label)
+        observe(ctx, spec, sched, outs[:len(sched)], api, per_service, label, req)
 
 
-def observe(ctx, spec, sched, outs, api, per_service, label):
+def observe(ctx, spec, sched, outs, api, per_service, label, req=None):
     payload = {"spec": spec, "schedule": sched}
     rcs = [o[0] for o in outs]
     nres = sum(len(v) for v in per_service.values())
@@ -934,6 +1377,9 @@ def observe(ctx, spec, sched, outs, api, per_service, label):
     if api is None:
         return
     observe_ordered(ctx, spec, sched, outs, ra, api, payload)
+    observe_dicts(ctx, spec, sched, outs, ra, api, payload)
+    if req is not None and spec.get("trace", True):
+        t3_response_order(ctx, req, outs, ra, sched, payload)
     # ---- T3: order of emitted definitions vs the model's possible outcomes
     ops, checks = [], []
     for svc in api.services.values():
@@ -1017,6 +1463,19 @@ def observe_ordered(ctx, spec, sched, outs, ra, api, payload):
         ctx.disagree("T2:c10.subpackages", f"model {want_subs} vs impl API.subpackages {real_keys}", payload)
     if mo[0].get("outcomes") is not None and len(mo[0]["outcomes"]) != 1:
         ctx.disagree("T2:c10.subpackages", f"model has {len(mo[0]['outcomes'])} outcomes for the sub-package set", payload)
+    # nested sub-packages: every view of the API (API.subpackages of a sub-package's API object, `subpackage[level]`)
+    views, frontier = [], [([], api)]
+    while frontier:
+        path, v = frontier.pop(0)
+        for sp, sub in v.subpackages.items():
+            views.append((path + [sp], sub)); frontier.append((path + [sp], sub))
+    if views:
+        vm = ask(ctx, [{"op": "c10.subpackages", "view": path, "subs": subs} for path, _ in views])
+        for (path, v), m in zip(views, vm):
+            ctx.traces += 1
+            ctx.count("nested_subpackages", f"depth{len(path)}:{len(m['r'])}")
+            if list(v.subpackages.keys()) != m["r"] or (m.get("outcomes") is not None and len(m["outcomes"]) != 1):
+                ctx.disagree("T2:c10.subpackages", f"view {path}: model {m['r']} vs impl {list(v.subpackages.keys())}", payload)
     for svc, m in zip(svcs, mo[1:]):
         ctx.traces += 1
         ctx.count("scopes_per_service", len(m["r"]))
@@ -1085,7 +1544,11 @@ def run(ctx):
                 "paged/streaming/void methods, 2-7 retryable codes per method, grpc/rest/ads templates, snippets on/off; extras (all on "
                 "in every third API): 3-5 OAuth scopes per service, 3-4 sub-packages with messages+enums, Operations/Locations/IAM "
                 "mixins via service yaml, 3-5 extra + nested enums, multi-field method signatures, LRO requests carrying an "
-                "Operation, compute-style extended-operation services (3 operation services); each API is "
+                "Operation, compute-style extended-operation services (3 operation services); round 2: a service yaml for every API with "
+                "mixins and for half of the others — apis shuffled, mixin http rules shuffled/interleaved, repeated selectors, "
+                "additional_bindings, rules of disabled mixins and of own methods, method_settings (long_running / auto_populated UUID4 fields), "
+                "library_settings (selective generation of a method subset, rest_async_io) —, sub-packages of sub-packages, a service inside a "
+                "sub-package, an own rpc named like an IAM mixin method; per API 3-6 re-ordered variants of its yaml at schema level; each API is "
                 "generated by N separate processes (distinct PYTHONHASHSEED incl. `random`, three working directories, five "
                 "locale/TZ/HOME environments, same seed twice) plus 2-3 processes (6 on replay) that differ from the first one only in the wall-clock "
                 "time they see (another year in either direction, 31 Dec 23:59:59Z under two time zones, leap day, > 2**31, year 2100, another "
@@ -1093,13 +1556,16 @@ def run(ctx):
     ctx.assume("option files (retry-config) are referenced by absolute path: the statement fixes 'the same referenced option files'")
     ctx.assume("resource type strings are unique per message/definition within an API (resource-name specification)")
     ctx.assume("identifiers are ASCII (the model's case folding is ASCII); proto3 field names are distinct up to case (protoc enforces it)")
-    ctx.assume("selective generation (C16) is covered by the inventory only, not by generated cases")
+    ctx.assume("with a service in a sub-package the generated yaml carries no method_settings / selective settings and snippets are off "
+               "(known findings of C18 / C16 / C14: generation aborts, there is no response to compare)")
+    ctx.assume("the insertion order of a Python dict is the order of the assignments that created its keys (language semantics; modelled by OMap)")
     ctx.assume("permuting proto_file (topologically) or the parameter string gives a DIFFERENT request: probed, reported under probe:*, never a failure")
     check_inventory(ctx)
     workdir = tempfile.mkdtemp(prefix="gapicverif_c10_", dir=genrun.SCRATCH)
     try:
         r = ctx.rng("t2")
         t2_functions(ctx, r)
+        t2_dicts(ctx, r)
         # corpus first
         for fname, blob in corpus_specs():
             spec = blob["spec"]
@@ -1114,7 +1580,8 @@ def run(ctx):
             spec = gen_spec(rr, a, clean=(a % 4 != 3), rich=(a % 3 == 1), extop=((a % 6 == 1) if a % 3 == 1 else None))
             if a % 9 == 5:                         # the alternative template tree, with the extras it supports
                 spec["opts"].update(ads=True, transport="grpc")
-                spec["extras"].update(subpkgs=[], mixins=[], extop=False)
+                # (the ads templates take a service yaml with mixins too; no sub-packages / extended operations there)
+                spec["extras"].update(subpkgs=[], extop=False, nested_subpkgs=False, sub_service=False)
             items.append((rr, spec, f"api{a}", a % ctx.n(4, 3) == 1))
         for k in range(0, len(items), chunk):
             run_apis(ctx, items[k:k + chunk], workdir, nseeds)
@@ -1171,8 +1638,16 @@ CLAIM = dict(
          "theorem (order-free sites => schedule-independent response); instance theorems for retryable exceptions (17 class names), "
          "query params, import blocks, and for the resource path helpers as repaired for F4 (two-stage sort: order-free whenever full "
          "resource types are distinct, regression theorem for the F4 inputs, conservative w.r.t. the former single-stage order, and the "
-         "remaining hypothesis shown necessary). Tie: a static inventory "
-         "scan of all set/sort/impurity sites of gapic/**/*.py and the templates must equal a pinned, classified inventory; T2 of the "
+         "remaining hypothesis shown necessary). Round 2: Python's insertion-ordered dict as a model (OMap: d[k]=v, update, comprehension) with the "
+         "closed forms of key order and last-writer-wins lookup; API._get_methods_from_service / mixin_api_methods / mixin_api_signatures / "
+         "mixin_http_options / http_options / all_method_settings / ChainMap iteration of api.services / Generator.get_response's OrderedDict of files: "
+         "each key order is given in closed form as a function of the ORDER of the yaml's lists (resp. of the per-template name lists) only — invariant "
+         "under permutation of the descriptor tables, of `apis`, of the services, and under any change of a rule but its selector; the seed6 change "
+         "(walking a set intersection) is shown order-dependent. Tie: a static inventory "
+         "scan of all set/sort/impurity sites of gapic/**/*.py and the templates must equal a pinned, classified inventory; 362 sites incl. every unsorted template loop over a dict view (t-dictloop). T2 of the real mixin / http-option / method-settings "
+         "dicts of the API object (and of 3-6 re-ordered variants of its service yaml) and of dict / dictsort / ChainMap vs the model; T3 of the order of "
+         "wrapped mixin methods (base.py), _Base<Mixin> classes (rest_base.py), operations_client http_options (rest.py) and of CodeGeneratorResponse.file "
+         "(instrumented _render_template/_get_file call tree) for every process. T2 of the "
          "real sort_lines, the generator's Jinja |sort filters, query_params, disambiguate, names on real schema objects vs the model "
          "under permutations; T3 of the order of emitted helper/retry definitions, AUTH_SCOPES, sub-package file order and snippet-index "
          "order of every process's response vs the model. Oracle: the real CLI in separate processes (different PYTHONHASHSEED, cwd, "
